@@ -288,6 +288,23 @@ func (w *relWorld) step(rb RelBlock) ([]relTxResult, *world.TwinResult, *Failure
 		var msg sdk.Msg
 		res := relTxResult{kind: rt.Kind, expect: vReject}
 		signer := prop
+		if rt.Kind == "old-epoch" {
+			// a genuine full vote, but signed (and labelled) for an earlier epoch or a neighbouring sequence
+			rt.Kind = "vote"
+			rt.Vote.Class, rt.Vote.BitmapBytes = "honest-all", -1
+			d := -1 - abs(rt.Ref)%2
+			if uint64(-d) > rv.Epoch || abs(rt.Ref)%5 == 0 {
+				d = 1 + abs(rt.Ref)%2
+			}
+			if abs(rt.Ref)%3 == 0 {
+				// an earlier transaction of this block may consume one sequence number: stay clear of +1
+				sd := []int{-1, -2, 2, 3}[abs(rt.Ref)%4]
+				rt.Vote.MsgSeqDelta, rt.Vote.DocSeqDelta = sd, sd
+			} else {
+				rt.Vote.MsgEpDelta, rt.Vote.DocEpDelta = d, d
+			}
+			w.nt["reuse"] = true
+		}
 		switch rt.Kind {
 		case "vote":
 			if rt.Vote.Kind%numVoteKinds == kindProcess && len(f.pending) == 0 {
@@ -642,12 +659,14 @@ func genRelCase(focus string) func(t *rapid.T) RelCase {
 			}
 			ntx := rapid.SampledFrom([]int{0, 1, 1, 1, 2}).Draw(t, "ntx")
 			for j := 0; j < ntx; j++ {
-				kinds := []string{"vote", "vote", "vote", "replay", "cross", "postfail", "newvoter", "newvoter", "accept", "approve"}
+				kinds := []string{"vote", "vote", "vote", "replay", "cross", "postfail", "old-epoch", "old-epoch", "newvoter", "newvoter", "accept", "approve"}
 				if focus == "C16" {
 					kinds = []string{"vote", "vote", "newvoter", "newvoter", "newvoter", "accept", "accept", "replay", "approve"}
 				}
 				rt := RelTx{Kind: rapid.SampledFrom(kinds).Draw(t, "txKind"), Ref: rapid.IntRange(0, 50).Draw(t, "ref")}
 				switch rt.Kind {
+				case "old-epoch":
+					rt.Vote = VoteSpec{Kind: rapid.IntRange(0, numVoteKinds-1).Draw(t, "oeKind"), BodyArg: rapid.IntRange(0, 7).Draw(t, "oeArg"), BitmapBytes: -1, Class: "honest-all"}
 				case "vote":
 					rt.Vote = genVoteSpec(t, c.N)
 					if rapid.IntRange(0, 2).Draw(t, "honestBias") > 0 {
